@@ -318,3 +318,54 @@ Proof.
 Qed.
 
 Print Assumptions roc_compare_exact.
+
+(* ---------------------------------------------------------------- flat_line_test: duration / step, truncated
+   count = (threshold / time_interval).astype(int) with threshold = t * 2^-k and a sampling step m * 2^-k on the same
+   dyadic scale (whole seconds, 1.5 s, 0.25 s, ...): the exact quotient is t / m, generally not a binary64 number, but the
+   truncation of the ROUNDED quotient is the integer quotient - rounding cannot carry t / m over the next integer, which
+   is at least 1 / m >= 2^-26 away, while binary64 numbers below 2^26 are at most 2^-27 apart *)
+Theorem trunc_quotient_exact (t m : Z) :
+  (0 <= t < 2 ^ 26)%Z -> (1 <= m < 2 ^ 26)%Z -> Zfloor (fl (IZR t / IZR m)) = (t / m)%Z.
+Proof.
+  intros Ht Hm.
+  set (N := (t / m)%Z). set (q := IZR t / IZR m).
+  assert (V : Valid_exp fexp64) by (apply FLT_exp_valid; reflexivity).
+  assert (Pm : 0 < IZR m) by (apply IZR_lt; lia).
+  assert (HN : (0 <= N < 2 ^ 26)%Z).
+  { unfold N. split; [apply Z.div_pos; lia|]. apply Z.div_lt_upper_bound; nia. }
+  assert (D1 : (m * N <= t)%Z) by (unfold N; apply Z.mul_div_le; lia).
+  assert (D2 : (t <= m * N + m - 1)%Z).
+  { unfold N. pose proof (Z.mod_pos_bound t m ltac:(lia)). pose proof (Z.div_mod t m ltac:(lia)). lia. }
+  assert (Lo : IZR N <= q).
+  { unfold q. apply Rmult_le_reg_r with (IZR m); [exact Pm|].
+    replace (IZR t / IZR m * IZR m) with (IZR t) by (field; lra).
+    rewrite <- mult_IZR. apply IZR_le. lia. }
+  assert (Hi : q <= IZR N + 1 - bpow radix2 (-26)).
+  { assert (Q1 : q <= IZR N + 1 - / IZR m).
+    { unfold q. apply Rmult_le_reg_r with (IZR m); [exact Pm|].
+      replace (IZR t / IZR m * IZR m) with (IZR t) by (field; lra).
+      replace ((IZR N + 1 - / IZR m) * IZR m) with (IZR (m * N + m - 1)).
+      - apply IZR_le. exact D2.
+      - rewrite minus_IZR, plus_IZR, mult_IZR. simpl (IZR 1). field. lra. }
+    assert (Q2 : bpow radix2 (-26) <= / IZR m).
+    { change (bpow radix2 (-26)) with (/ IZR (2 ^ 26)). apply Rinv_le_contravar; [exact Pm|apply IZR_le; lia]. }
+    lra. }
+  assert (FN : fl (IZR N) = IZR N).
+  { replace (IZR N) with (grid 0 N) by (unfold grid; simpl; ring). apply fl_grid; lia. }
+  set (u := IZR N + 1 - bpow radix2 (-26)).
+  assert (Fu : fl u = u).
+  { replace u with (grid 26 ((N + 1) * 2 ^ 26 - 1)).
+    - apply fl_grid; lia.
+    - unfold u, grid. rewrite minus_IZR, mult_IZR, plus_IZR.
+      change (IZR (2 ^ 26)) with (bpow radix2 26).
+      assert (E : bpow radix2 26 * bpow radix2 (- (26)) = 1) by (rewrite <- bpow_plus; reflexivity).
+      simpl (IZR 1). change (- (26))%Z with (-26)%Z in *.
+      set (a := bpow radix2 26) in *. set (b := bpow radix2 (-26)) in *.
+      replace (((IZR N + 1) * a - 1) * b) with ((IZR N + 1) * (a * b) - b) by ring. rewrite E. ring. }
+  assert (B1 : IZR N <= fl q) by (rewrite <- FN; apply round_le; [exact V|apply valid_rnd_N|exact Lo]).
+  assert (B2 : fl q <= u) by (rewrite <- Fu; apply round_le; [exact V|apply valid_rnd_N|exact Hi]).
+  apply Zfloor_imp. rewrite plus_IZR. simpl (IZR 1).
+  pose proof (bpow_gt_0 radix2 (-26)). unfold u in B2. split; lra.
+Qed.
+
+Print Assumptions trunc_quotient_exact.
